@@ -37,7 +37,7 @@ func init() {
 	register(&c10{base{
 		id:          "C10",
 		level:       lvlExploration,
-		rule:        "writer direction: every .par/.pNN written by the real par1.Create for a seeded set is parsed by an independent PAR 1.0 reader (header fields, control hash over bytes from 0x20, set hash over saved entries, offsets/sizes, UTF-16LE names incl. surrogate pairs, status bit 0) and its parity bytes are recomputed as sum i^(v-1)*file_i over GF(2^8)/0x11D; reader direction: sets produced by an independent writer (comment in the index volume, non-saved entries at every position among the saved ones, surrogate-pair names, generator id in the version field) are verified and repaired by gopar within capacity. A key is (direction, files, volumes, placement of non-saved entries / name class). Non-saved entries are kept absent or altered on disk through every judged state; sets with exactly 255 saved entries (with 0..2 more that are not saved) and one volume. Writer direction also through ONE par1.Encoder object with a repeated LoadFileData step.. Reader cases also judge intact data with a hole in the volume numbering under the full check, and all saved files lost at once.. Reader cases also judge the state without any parity volume.",
+		rule:        "writer direction: every .par/.pNN written by the real par1.Create for a seeded set is parsed by an independent PAR 1.0 reader (header fields, control hash over bytes from 0x20, set hash over saved entries, offsets/sizes, UTF-16LE names incl. surrogate pairs, status bit 0) and its parity bytes are recomputed as sum i^(v-1)*file_i over GF(2^8)/0x11D; reader direction: sets produced by an independent writer (comment in the index volume, non-saved entries at every position among the saved ones, surrogate-pair names, generator id in the version field) are verified and repaired by gopar within capacity. A key is (direction, files, volumes, placement of non-saved entries / name class). Non-saved entries are kept absent or altered on disk through every judged state; sets with exactly 255 saved entries (with 0..2 more that are not saved) and one volume. Writer direction also through ONE par1.Encoder object with a repeated LoadFileData step.. Reader cases also judge intact data with a hole in the volume numbering under the full check, and all saved files lost at once.. Reader cases also judge the state without any parity volume. Reader sets whose client-maintained status bits differ between the index and the parity volumes.",
 		assumptions: commonAssumptions,
 		opts:        core.WorkerOpts{CrashIsViolation: true, WallSeconds: 2400},
 	}})
